@@ -29,8 +29,8 @@ class Path:
         return p
 
 
-def paths(stmt, limit=4096):
-    """All paths through a structured statement."""
+def paths(stmt, limit=4096, record_conds=False):
+    """All paths through a structured statement (record_conds: branch decisions also appear in events, in order)."""
     def rec(s, ps):
         if s is None:
             return ps
@@ -52,11 +52,15 @@ def paths(stmt, limit=4096):
                     a = p.copy()
                     if cv is None:
                         a.conds.append((s['c'], True))
+                        if record_conds:
+                            a.events.append(('cond', s['c'], True))
                     out += rec(s['t'], [a])
                 if cv is None or not cv:
                     b = p.copy()
                     if cv is None:
                         b.conds.append((s['c'], False))
+                        if record_conds:
+                            b.events.append(('cond', s['c'], False))
                     out += rec(s.get('e'), [b]) if s.get('e') is not None else [b]
             if len(out) > limit:
                 raise AnalysisBroken('path explosion')
